@@ -121,16 +121,20 @@ def dijkstraDist (g : WGraph) (S : List Nat) : List (Nat × Int) :=
   (entries g (fun _ => none) S).map (fun e => (e.v, e.d))
 
 /-- `DijkstraDist::distances` (`none` = `usize::MAX`). -/
-def distances (g : WGraph) (S : List Nat) : List (Option Int) :=
-  (dijkstraDist g S).foldl (fun acc it => acc.set it.1 (some it.2)) (List.replicate g.n none)
+def distancesOf (n : Nat) (items : List (Nat × Int)) : List (Option Int) :=
+  items.foldl (fun acc it => acc.set it.1 (some it.2)) (List.replicate n none)
+
+def distances (g : WGraph) (S : List Nat) : List (Option Int) := distancesOf g.n (dijkstraDist g S)
 
 /-- Item sequence of `DijkstraPred::new(g, S)`. -/
 def dijkstraPred (g : WGraph) (S : List Nat) : List (Option Nat × Nat) :=
   (entries g some S).map (fun e => (e.p, e.v))
 
 /-- `DijkstraPred::predecessors`. -/
-def predecessors (g : WGraph) (S : List Nat) : PredTree.Pred :=
-  (dijkstraPred g S).foldl (fun acc it => acc.set it.2 it.1) (List.replicate g.n none)
+def predecessorsOf (n : Nat) (items : List (Option Nat × Nat)) : PredTree.Pred :=
+  items.foldl (fun acc it => acc.set it.2 it.1) (List.replicate n none)
+
+def predecessors (g : WGraph) (S : List Nat) : PredTree.Pred := predecessorsOf g.n (dijkstraPred g S)
 
 def resMap (f : List Nat → List Nat) : PredTree.Res → PredTree.Res
   | .panic => .panic
